@@ -1,37 +1,77 @@
 """Re-run every quick check against every seeded change under /verif/seeded and refresh the
-`checks_fired` / `caught` fields of their meta.json (and print a table).
+`checks_fired` / `caught` fields of their meta.json.
 
-    python3 engine/seedsweep.py [name-substring ...]
-"""
+    python3 engine/seedsweep.py [-j N] [--in-repo] [name-substring ...]
+
+By default each patch is applied to its own scratch copy of /repo's working tree (outside /repo and
+/verif, removed afterwards), so several run at once and /repo is never touched.  With --in-repo the
+documented one-at-a-time procedure is used instead (engine/seedcheck.py: git -C /repo apply, run the
+checks, git -C /repo checkout -- .)."""
 import json
 import os
 import re
+import shutil
 import subprocess
 import sys
+import concurrent.futures as cf
 
 VERIF = os.path.dirname(os.path.dirname(os.path.abspath(__file__)))
+sys.path.insert(0, os.path.join(VERIF, "engine"))
+import registry  # noqa: E402
+import selftest  # noqa: E402
+
+
+def fired_in_scratch(patch):
+    d = selftest.make_scratch()
+    try:
+        r = subprocess.run(["patch", "-p1", "-s", "-i", patch], cwd=d, stdout=subprocess.PIPE, stderr=subprocess.STDOUT, text=True)
+        if r.returncode != 0:
+            return {"?": ["patch does not apply: " + r.stdout[-200:]]}
+        fired = {}
+        for p in sorted(registry.PROPS):
+            rc, out = selftest.run_check(d, p)
+            if rc != 0:
+                rules = sorted(set(re.findall(r"^\s+(?:VIOLATION|ANCHOR-MISSING) (\S+) ", out, re.M)))
+                if "FATAL" in out:
+                    rules.append("FATAL")
+                fired[p] = rules or ["exit1"]
+        return fired
+    finally:
+        shutil.rmtree(d, ignore_errors=True)
+
+
+def fired_in_repo(patch):
+    r = subprocess.run([sys.executable, os.path.join(VERIF, "engine", "seedcheck.py"), patch], stdout=subprocess.PIPE, stderr=subprocess.STDOUT, text=True)
+    m = re.search(r'\{"fired": .*\}', r.stdout)
+    return json.loads(m.group(0))["fired"] if m else {"?": [r.stdout[-300:]]}
 
 
 def main():
-    filt = sys.argv[1:]
+    args = sys.argv[1:]
+    j = 4
+    if "-j" in args:
+        i = args.index("-j")
+        j = int(args[i + 1])
+        del args[i:i + 2]
+    in_repo = "--in-repo" in args
+    filt = [a for a in args if not a.startswith("-")]
     base = os.path.join(VERIF, "seeded")
+    names = [n for n in sorted(os.listdir(base)) if os.path.exists(os.path.join(base, n, "patch.diff")) and (not filt or any(f in n for f in filt))]
     rows = []
-    for name in sorted(os.listdir(base)):
-        d = os.path.join(base, name)
-        patch = os.path.join(d, "patch.diff")
-        if not os.path.exists(patch) or (filt and not any(f in name for f in filt)):
-            continue
-        r = subprocess.run([sys.executable, os.path.join(VERIF, "engine", "seedcheck.py"), patch], stdout=subprocess.PIPE, stderr=subprocess.STDOUT, text=True)
-        m = re.search(r'\{"fired": .*\}', r.stdout)
-        fired = json.loads(m.group(0))["fired"] if m else {"?": [r.stdout[-300:]]}
-        mp = os.path.join(d, "meta.json")
-        meta = json.load(open(mp)) if os.path.exists(mp) else {}
-        meta["checks_fired"] = fired
-        meta["caught"] = bool(fired)
-        json.dump(meta, open(mp, "w"), indent=1)
-        own = meta.get("property")
-        rows.append((name, own, own in fired, sorted(fired)))
-        print("%-45s target=%s caught_by_target=%s fired=%s" % (name, own, own in fired, {k: v[:3] for k, v in fired.items()}))
+
+    def one(name):
+        patch = os.path.join(base, name, "patch.diff")
+        return name, (fired_in_repo(patch) if in_repo else fired_in_scratch(patch))
+    with cf.ThreadPoolExecutor(1 if in_repo else j) as ex:
+        for name, fired in ex.map(one, names):
+            mp = os.path.join(base, name, "meta.json")
+            meta = json.load(open(mp)) if os.path.exists(mp) else {}
+            meta["checks_fired"] = fired
+            meta["caught"] = bool(fired)
+            json.dump(meta, open(mp, "w"), indent=1)
+            own = meta.get("property")
+            rows.append((name, own, own in fired, sorted(fired)))
+            print("%-45s target=%s caught_by_target=%s fired=%s" % (name, own, own in fired, {k: v[:3] for k, v in fired.items()}), flush=True)
     print("%d seeded changes, %d caught, %d caught by their own property's check" % (len(rows), sum(1 for r in rows if r[3]), sum(1 for r in rows if r[2])))
 
 
